@@ -100,7 +100,7 @@ def generate(seed, tier, batch):
             sel = "uniform"
         start = sorted(r.sample(range(n), r.randint(1, n)))
         return {"kind": "clique", "graph": g, "routine": routine, "select": sel, "weights": wts, "start": start, "iterations": r.randint(1, 3), "sseed": seed,
-                "edit_between": r.random() < 0.3}
+                "edit_between": r.random() < 0.3, "foreign_first": r.random() < 0.2}
     if batch == "subgraph":
         g = gen_graph(r, 10 if big else 8)
         n = g["n"]
@@ -115,7 +115,7 @@ def generate(seed, tier, batch):
         hi = r.randint(lo, n)
         return {"kind": "subgraph", "graph": g, "routine": routine, "select": sel, "weights": wts, "start": start, "min": lo, "max": hi,
                 "max_count": r.randint(1, 3), "subs": [sorted(r.sample(range(n), r.randint(1, n))) for _ in range(r.randint(1, 4))], "sseed": seed,
-                "edit_between": r.random() < 0.5}
+                "edit_between": r.random() < 0.5, "foreign_first": r.random() < 0.2}
     # similarity
     routine = r.choice(["orbit_to_sample", "event_to_sample"])
     modes = r.randint(1, 12 if big else 8)
@@ -419,6 +419,17 @@ def execute(script, w):
         g2 = dict(g, edges=[e for e in g["edges"] if tuple(e) != (x_, y_)])
         _execute_once(dict(script, graph=g2, edit_between=False), w, G, a, ("history=edit-graph-in-place",))
         return
+    if script["kind"] in ("clique", "subgraph") and script.get("foreign_first"):
+        # the same routine was called on another graph object with the same nodes but the complementary edges earlier in the process
+        g = script["graph"]
+        allp = {(x_, y_) for x_ in range(g["n"]) for y_ in range(x_ + 1, g["n"])}
+        comp = sorted(allp - {tuple(e) for e in g["edges"]})
+        w.fault("foreign_activity:same_routine_other_graph")
+        w_tmp = type(w)(w.seed, w.prop)
+        try:
+            _execute_once(dict(script, graph=dict(g, edges=comp), edit_between=False), w_tmp, None, None, ())
+        except Exception as ex:  # noqa
+            w.log("foreign_error", exc=type(ex).__name__, msg=str(ex)[:200])
     _execute_once(script, w, None, None, ())
 
 
